@@ -253,13 +253,26 @@ def class_src(fam, decl, variant, options):
     return "\n".join(lines) + "\n"
 
 
-def family_src(fam, variants):
-    """variants: dict suffix -> codegen options dict"""
+def family_src(fam, variants, local=False):
+    """variants: dict suffix -> codegen options dict.
+    local=True defines the classes inside a function (as a factory or a test method would): such
+    classes cannot be pickled, which sends bisturi's prototype cloning down its live-object path."""
     out = [HEADER]
+    body = []
     for v, options in variants.items():
         for name in fam["order"]:
-            out.append(class_src(fam, fam["decls"][name], v, options))
-            out.append("")
+            body.append(class_src(fam, fam["decls"][name], v, options))
+            body.append("")
+    text = "\n".join(body)
+    if not local:
+        out.append(text)
+        return "\n".join(out)
+    out.append("def _make_classes():")
+    out.append("\n".join(("    " + line) if line else line for line in text.split("\n")))
+    out.append("    return dict(locals())")
+    out.append("")
+    out.append("globals().update(_make_classes())")
+    out.append("")
     return "\n".join(out)
 
 
@@ -311,11 +324,11 @@ def load_source(src, directory, modname=None):
     return module, path
 
 
-def load_family(fam, variants, directory):
+def load_family(fam, variants, directory, local=False):
     """Define the family's classes (all variants) from rendered source. Raises whatever class
     definition raises."""
     common.import_bisturi()
-    src = family_src(fam, variants)
+    src = family_src(fam, variants, local=local)
     module, path = load_source(src, directory)
     return Loaded(fam, module, variants, path, src)
 
